@@ -101,9 +101,27 @@ Definition find_child (p : proj) (i : nat) (name : str) (kind : option str) : fo
         | Some (AList ids) =>
           match find_in p name ids with Some j => Found j | None => NotFound end
         | Some ADict => NotFound
-        | Some (ASingle _) | Some ANone => ErrT    (* list(<object>) / list(None) *)
+        | Some (ASingle j) =>                      (* a single item is wrapped in a list *)
+          if name_eqb name (name_of p j) then Found j else NotFound
+        | Some ANone => NotFound                   (* None: the empty list *)
         end
       end
+    end
+  end.
+
+(* FortranBase.find_in_scope(name, entity): [entity] is a component kind word (SCOPE_LINK_TYPES);
+   any other word is handed to find_child as an item kind *)
+Definition find_scope (p : proj) (i : nat) (name : str) (kind : option str) : found :=
+  match kind with
+  | None => find_child p i name None
+  | Some k =>
+    match assoc_get (lower k) scope_link_types with
+    | Some attrs =>
+      match get_ent p i with
+      | Some e => find_chain p e name attrs        (* _find_in_list over self.iterator of these collections *)
+      | None => NotFound
+      end
+    | None => find_child p i name (Some k)
     end
   end.
 
@@ -136,20 +154,22 @@ Definition project_find (p : proj) (name : str) (kind child ckind : option str) 
 Inductive result :=
 | RLink (i : nat)              (* <a href=...>item.name</a> *)
 | RPlain                       (* <a>name</a>, with a warning *)
-| RErr.                        (* an exception leaves convert_link *)
+| RWarn                        (* ValueError / RuntimeError inside convert_link: caught by handleMatch *)
+| RErr.                        (* any other exception (TypeError): leaves the conversion *)
 
-(* with suppress(ValueError): return context.find_child(name, m["entity"]) *)
+(* with suppress(ValueError): return context.find_in_scope(name, m["entity"]) *)
 Definition find_child_quiet (p : proj) (i : nat) (name : str) (kind : option str) : found :=
-  match find_child p i name kind with ErrV => NotFound | r => r end.
+  match find_scope p i name kind with ErrV => NotFound | r => r end.
 
 Definition finish (p : proj) (f : found) : result :=
   match f with
   | Found i => match get_ent p i with
-               | Some e => if e_has_url e then RLink i else RErr
-               | None => RErr
+               | Some e => if e_has_url e then RLink i else RWarn   (* "Found item ... but no url" *)
+               | None => RWarn
                end
   | NotFound => RPlain
-  | _ => RErr
+  | ErrV => RWarn
+  | ErrT => RErr
   end.
 
 (* the context, then its parent *)
@@ -181,26 +201,26 @@ Definition ctx_step (p : proj) (ctx : option nat) (r : ref) : found :=
    of the component *)
 Definition project_step (p : proj) (r : ref) : result :=
   match project_find p (r_name r) (r_kind r) (r_child r) (r_ckind r) with
-  | ErrV | ErrT => RErr
-  | Found i => finish p (Found i)
   | NotFound =>
     match r_child r with
-    | Some _ =>
-      match project_find p (r_name r) (r_kind r) None None with
-      | ErrV | ErrT => RErr
-      | f => finish p f
-      end
+    | Some _ => finish p (project_find p (r_name r) (r_kind r) None None)
     | None => RPlain
     end
+  | f => finish p f
   end.
 
 (* FordLinkProcessor.convert_link with md.current_context = ctx *)
 Definition convert_link (p : proj) (ctx : option nat) (r : ref) : result :=
   match ctx_step p ctx r with
-  | ErrV | ErrT => RErr
-  | Found i => finish p (Found i)
   | NotFound => project_step p r
+  | f => finish p f
   end.
+
+(* FordLinkProcessor.handleMatch: ValueError / RuntimeError become a warning and plain text *)
+Definition settle (res : result) : result :=
+  match res with RWarn => RPlain | _ => res end.
+Definition render (p : proj) (ctx : option nat) (r : ref) : result :=
+  settle (convert_link p ctx r).
 
 (* ------------------------------------------------------------------------------------------ *)
 (* Spec — user guide "Links" + the property text.
@@ -239,12 +259,15 @@ Definition doc_item_kinds : list (str * str) :=
    (s "type", s "types"); (s "variable", s "variables")].
 
 (* the attributes of an enclosing entity that hold things of a component kind *)
-Definition scope_attrs (k c : str) : list str :=
+Definition scope_attrs (k c : str) : list str :=      (* k: the kind word in lower case *)
   if str_eqb c (s "procedures") then [s "functions"; s "subroutines"; s "interfaces"]
-  else if str_eqb (lower k) (s "interface") then [s "absinterfaces"; s "interfaces"]
+  else if str_eqb k (s "interface") then [s "absinterfaces"; s "interfaces"]
        (* inside a scope "interface" may as well mean one of its generic interfaces *)
   else if str_eqb c (s "allfiles") then []
-  else [c].                      (* types, absinterfaces, modules, submodules, programs, ... *)
+  else match assoc_get k doc_comp_kinds with
+       | Some _ => [c]           (* types, absinterfaces, modules, submodules, programs, ... *)
+       | None => []              (* "ext...": entities of other projects are nobody's contents *)
+       end.
 
 Definition aval_ids (v : aval) : list nat :=
   match v with AList ids => ids | ASingle i => [i] | _ => [] end.
@@ -274,7 +297,7 @@ Definition scope_cands (p : proj) (i : nat) (name : str) (kind : option str) : l
     match kind with
     | None => matching p name (contents e)
     | Some k => match comp_kind k with
-                | Some c => matching p name (contents_of e (scope_attrs k c))
+                | Some c => matching p name (contents_of e (scope_attrs (lower k) c))
                 | None => []
                 end
     end
@@ -340,7 +363,8 @@ Definition ckind_documented (k : option str) : bool :=
 
 (* is [res] an acceptable rendering of the reference r in the documentation of ctx? *)
 Definition spec_accepts (p : proj) (ctx : option nat) (r : ref) (res : result) : bool :=
-  if negb (kind_documented (r_kind r) && ckind_documented (r_ckind r)) then true   (* not specified *)
+  if negb (kind_documented (r_kind r) && ckind_documented (r_ckind r))
+  then match res with RLink _ | RPlain => true | _ => false end   (* not specified, but no abort *)
   else
     let cs := comp_cands p ctx r in
     match r_child r with
@@ -360,28 +384,11 @@ Definition spec_accepts (p : proj) (ctx : option nat) (r : ref) (res : result) :
         match res with
         | RPlain => true
         | RLink i => name_eqb (r_name r) (name_of p i) || name_eqb cn (name_of p i)
-        | RErr => false
+        | _ => false
         end
     end.
 
 (* ------------------------------------------------------------------------------------------ *)
-(* Regions in which the code is known to leave the Spec *)
-
-(* R1: a kind qualifier on the component makes the code skip the context and its parent (the
-   context step uses the *item* table): every qualifier except "type" and "absinterface" *)
-Definition kind_same_in_scope (k : option str) : bool :=
-  match k with
-  | None => true
-  | Some k' => str_eqb (lower k') (s "type") || str_eqb (lower k') (s "absinterface")
-  end.
-Definition region_kind_scope (ctx : option nat) (r : ref) : bool :=
-  match ctx with None => false | Some _ => negb (kind_same_in_scope (r_kind r)) end.
-
-(* R2: an exception instead of "warning, no link" (item kind that cannot exist in the component,
-   constructor, an item without a URL) *)
-Definition region_error (p : proj) (ctx : option nat) (r : ref) : bool :=
-  match convert_link p ctx r with RErr => true | _ => false end.
-
 (* well-formedness of the abstract project, as far as the theorems need it *)
 Definition list_attr_ok (v : aval) : bool :=
   match v with AList _ | ADict => true | _ => false end.
